@@ -18,6 +18,8 @@ class Facts:
                 self.raw = json.loads(apply_aliases(text, self.aliases))
                 from .inline import restore_param_order
                 restore_param_order(self.raw, perms)
+            from .inline import restore_self_params
+            self.self_restored = restore_self_params(self.raw, reference)
         self.crate = self.raw["crate"]
         self.opts = self.raw["opts"]
         self.fns = {}
